@@ -347,6 +347,10 @@ func c04Gen(g *core.Gen) {
 	// blank, or that are prefixes of each other - distinct files on a case-sensitive filesystem
 	look := scen.P1Config{Sizes: []int{7, 3, 12, 1, 9, 4, 6, 2}, Names: []string{"Readme.txt", "README.TXT", "\u00e9t\u00e9", "\u00c9T\u00c9", "K", "\u212a", "data", "data.bin"}, Volumes: 3}
 	c04Deviate(g, look, 2)
+	// longest file an exact multiple of 64 KiB (and its neighbours): block-wise processing of the shards ends on a boundary
+	for _, z := range []int{65535, 65536, 65537, 131072} {
+		c04Deviate(g, scen.P1Config{Sizes: []int{z, 100}, Volumes: 2}, 1)
+	}
 	big := scen.P1Config{Sizes: []int{16383, 16384, 16385, 20000}, Volumes: 4}
 	c04Deviate(g, big, 2)
 	for _, k := range []int{6, 7} {
